@@ -4,12 +4,13 @@ import Qfx.Drv.Val
 import Qfx.Drv.ValMon
 import Qfx.Drv.Sched
 import Qfx.Drv.Store
+import Qfx.Drv.StoreMon
 namespace Qfx.Drv
 
 def families : List (String × Family) :=
   [ ("val", valFamily), ("val-mon", valMonFamily)
   , ("sched", schedFamily)
-  , ("store", storeFamily)
+  , ("store", storeFamily), ("store-mon", storeMonFamily)
   ]
 
 end Qfx.Drv
